@@ -55,6 +55,8 @@ type Exec struct {
 	Panics     []string
 	finished   map[string]bool
 	Data       any // scenario-private data (world) for the check
+	// StepFindings are findings raised by Scenario.AfterStep during the run.
+	StepFindings []Finding
 }
 
 // Log appends to the observation log. It is a scheduling point, so the order
@@ -110,6 +112,11 @@ type Scenario struct {
 	MaxSteps int
 	// LeakFilter: substrings that identify library goroutines in a dump.
 	LeakFilter []string
+	// AfterStep, when set, is called at every quiescence of the scheduled part
+	// with the name of the thread released last and the set of threads parked
+	// at a point now; what it returns is added to Exec.StepFindings. It lets a
+	// scenario say "this thread must not be blocked inside an operation now".
+	AfterStep func(e *Exec, released string, parked map[string]string) []Finding
 }
 
 const libFrame = "github.com/ipni/go-libipni/"
@@ -187,6 +194,15 @@ func Run(t *testing.T, sc *Scenario, prefix []int, expect []uint64) *Exec {
 		for step := 0; ; step++ {
 			synctest.Wait()
 			parked := s.Snapshot()
+			if sc.AfterStep != nil && step > 0 {
+				pm := map[string]string{}
+				for _, p := range parked {
+					pm[p.Name] = p.Label
+				}
+				if fs := sc.AfterStep(e, last, pm); len(fs) > 0 && len(e.StepFindings) < 4 {
+					e.StepFindings = append(e.StepFindings, fs...)
+				}
+			}
 			var en []*vsched.Parked
 			for _, p := range parked {
 				if p.IsEnabled() {
